@@ -424,10 +424,17 @@ class _FakeWebsocket:
         return self
 
     async def __anext__(self):
-        msg = await self.inbox.get()
-        if msg is None:
-            raise StopAsyncIteration
-        return msg
+        while True:
+            msg = await self.inbox.get()
+            if msg is None:
+                raise StopAsyncIteration
+            if isinstance(msg, tuple):
+                # a non-binary websocket message (raw peer only): `websockets` hands a text message to the
+                # application as str; ping / pong never reach it
+                if msg[0] != 'text':
+                    continue
+                return msg[1]
+            return msg
 
     async def send(self, msg):
         link = self.link
@@ -472,9 +479,19 @@ class WsLink:
                 msg = await self.queues[src].get()
                 await _wait(k.latency, k.rng)
                 self.delivered_msgs[src] += 1
-                self.sockets[dst].inbox.put_nowait(msg)
+                target = self.transports[dst]
+                if hasattr(target, 'rv_deliver') and not hasattr(target, 'send_frame'):
+                    if isinstance(msg, bytes):
+                        await target.rv_deliver(msg)       # a raw peer sits on this side
+                else:
+                    self.sockets[dst].inbox.put_nowait(msg)
         except asyncio.CancelledError:
             pass
+
+    def idle(self):
+        return all(q.empty() for q in self.queues.values()) and all(s.inbox.empty() for s in self.sockets.values()) \
+            and all(t._outgoing_frame_queue.empty() for t in self.transports.values()
+                    if hasattr(t, '_outgoing_frame_queue'))
 
     def delivered(self, side):
         return self.delivered_msgs[side]
@@ -492,6 +509,9 @@ class WsLink:
 
 
 def make_link(kind, rng, knobs_c=None, knobs_s=None):
+    if kind in ('aiohttp', 'quart', 'channels'):
+        from .gluelinks import GlueLink
+        return GlueLink(kind, rng, knobs_c, knobs_s)
     if kind == 'ws':
         return WsLink(rng, knobs_c, knobs_s)
     if kind == 'bytes':
